@@ -43,9 +43,15 @@ class C13(Check):
     required_probes = {'thorough': ['operator_cache_nonempty_at_op_start', 'intr', 'io_src_write', 'rhs']}
     max_discard = 0.7
 
+    def prepare_parent(self):
+        try:
+            import jax  # noqa: imported once in the parent; the XLA client is created lazily in the child
+        except Exception:
+            pass
+
     def strata(self, tier):
         s = [('S-clean', 3), ('S-fault', 3), ('S-noclear', 3), ('S-opname', 2), ('S-shared', 2), ('S-file', 1),
-             ('S-all', 2)]
+             ('S-all', 2), ('S-reuse', 2), ('S-jax', 1)]
         if tier == 'thorough':
             s.append(('S-fortran', 1))     # f2py builds: several models compiled to extension modules in one process
         return s
@@ -117,18 +123,31 @@ class C13(Check):
                             'kw': {'vectorize': rng.random() < 0.6, 'float_precision': 'float64',
                                    'clear': rng.random() < clear_pref_default(stratum)}})
         consumed = False
-        clear_pref = {'S-clean': 1.0, 'S-fault': 1.0, 'S-noclear': 0.0}.get(stratum, 0.5)
+        reusable = False
+        late_probes = []     # functions returned earlier are evaluated again at the end of the workflow
+        clear_pref = {'S-reuse': 1.0, 'S-clean': 1.0, 'S-fault': 1.0, 'S-noclear': 0.0}.get(stratum, 0.5)
         for j in range(n_obs):
             if consumed:
                 # a consumed template is rebuilt; a YAML build goes to a fresh file name because from_yaml caches
                 # templates by path (documented) and would hand back the consumed object
+                reuse = reusable and stratum in ('S-reuse', 'S-all', 'S-clean') and rng.random() < (0.8 if stratum == 'S-reuse' else 0.3)
                 ops.append({'wf': wid, 'op': 'construct', 'obj': M, 'spec': spec, 'pool': pool,
                             'fname': f'm_w{wid}_{j}'})
+                if reuse:
+                    # REUSE: the user keeps working with the instance that was compiled in place and cleared.  The shared
+                    # process skips the rebuild (ops flagged ref_only), the pristine reference performs it: what the
+                    # instance went through before must not show in what it compiles to now
+                    ops[-1]['ref_only'] = True      # (the reference also replays the workflow's update_var ops, see _expand_ref)
                 consumed = False
             kind = rng.choice(['compile', 'compile', 'run', 'jac'])
             kw = {'vectorize': rng.random() < 0.6, 'in_place': rng.random() < 0.5,
                   'clear': rng.random() < clear_pref,
                   'float_precision': 'float64' if rng.random() < 0.85 else 'float32'}
+            if stratum == 'S-jax':
+                # process-global backend settings (jax's x64 switch, jit caches): functions returned earlier keep their
+                # own precision when models of another precision are compiled later
+                kind = 'compile'
+                kw.update({'backend': 'jax', 'float_precision': rng.choice(['float64', 'float32']), 'in_place': False})
             if stratum == 'S-fortran':
                 kind = 'run'          # the f2py routine is observed through run(); its call signature is backend-specific
                 kw.update({'vectorize': False, 'float_precision': 'float64', 'backend': 'fortran',
@@ -164,10 +183,15 @@ class C13(Check):
                     n_in = int(round(kw['T'] / kw['dt']))
                 ops[-1 if ops[-1]['op'] != 'probe' else -2].setdefault('input', {
                     'target': f"{inode}/{iop}/{models.LIB[iinst['lib']]['in']}", 'n': n_in, 'amp': rng.choice([0.5, 1.0, -0.25])})
+            if kind == 'compile' and rng.random() < (0.9 if stratum == 'S-jax' else 0.3):
+                late_probes.append({'wf': wid, 'op': 'probe', 'handle': h})
             consumed = kw['in_place']
+            # an instance compiled in place by get_run_func and cleared is used again by many scripts (e.g. the same model
+            # first vectorized, then for the fortran backend); after a run() it carries the end state by design
+            reusable = consumed and kind == 'compile' and kw['clear'] and 'input' not in ops[-1 if ops[-1]['op'] != 'probe' else -2]
             if not kw['clear'] and rng.random() < (0.3 if stratum != 'S-noclear' else 0.05) and kw['in_place']:
                 ops.append({'wf': wid, 'op': 'clear', 'obj': M})
-        return ops
+        return ops + late_probes
 
     def gen_fault_workflow(self, rng, wid):
         kind = rng.choice(['badop', 'badop', 'intr', 'intr', 'rhs', 'io', 'io', 'wipe'])
@@ -297,14 +321,55 @@ class C13(Check):
 
     # ---------------------------------------------------------------------------------------------------
     @staticmethod
-    def _run_ops(ops):
-        """executes ops in the current process; returns (observations, world)"""
+    def _run_ops(ops, honour_reuse=False):
+        """executes ops in the current process; returns (observations, world).  With honour_reuse (the shared process) a
+        rebuild flagged ref_only - and the update_var ops replayed after it - is SKIPPED when the last compile of that
+        object succeeded: the user keeps working with the instance; everywhere else it is executed"""
         import warnings
         warnings.filterwarnings('ignore')
         from sim.world import World
         w = World()
-        obs = [w.do(op) for op in ops]
+        obs, last_ok, skipping = [], {}, set()
+        for op in ops:
+            key = (op['wf'], op.get('obj'))
+            if honour_reuse and op.get('ref_only'):
+                if op['op'] == 'construct':
+                    if last_ok.get(key):
+                        skipping.add(key)
+                        w.bump(w.probes, 'reuse_after_in_place')
+                    else:
+                        skipping.discard(key)
+                if key in skipping:
+                    obs.append(None)
+                    continue
+            elif key in skipping:
+                skipping.discard(key)
+            o = w.do(op)
+            obs.append(o)
+            if op['op'] in ('compile', 'run'):
+                last_ok[key] = o.get('status') == 'ok'
         return obs, w
+
+    @staticmethod
+    def _expand(ops):
+        """a ref_only rebuild is followed by the update_var ops its workflow has issued on that object since the last real
+        build (flagged ref_only as well)"""
+        out, upd, built = [], {}, set()
+        for o in ops:
+            key = (o['wf'], o.get('obj'))
+            out.append(o)
+            if o['op'] == 'construct':
+                if o.get('ref_only'):
+                    for u in upd.get(key, []):
+                        u = copy.deepcopy(u)
+                        u['ref_only'] = True
+                        out.append(u)
+                else:
+                    built.add(key)
+                    upd[key] = []
+            elif o['op'] == 'update_var' and key in built:
+                upd.setdefault(key, []).append(o)
+        return out
 
     @staticmethod
     def _ref_entry(ops):
@@ -314,7 +379,22 @@ class C13(Check):
     def execute(self, trace):
         from sim.pool import fork_call
         from sim import observe
-        ops = trace['ops']
+        ops = copy.deepcopy(trace['ops'])
+        last, built_ = {}, set()
+        for op in ops:
+            # a reuse is only meaningful right after an in-place compile that was cleared (a shrunk trace may have lost it:
+            # then the rebuild is a real one)
+            key = (op['wf'], op.get('obj'))
+            if op['op'] == 'construct' and op.get('ref_only'):
+                lo = last.get(key)
+                if not (lo and key in built_ and lo['op'] == 'compile' and lo['kw'].get('in_place') and lo['kw'].get('clear')
+                        and not lo.get('input') and not lo.get('fault')):
+                    del op['ref_only']
+            if op['op'] == 'construct' and not op.get('ref_only'):
+                built_.add(key)
+            if op['op'] in ('construct', 'compile', 'run', 'grid', 'clear'):
+                last[key] = op
+        ops = C13._expand(ops)
         wids = []
         for op in ops:
             if op['wf'] not in wids:
@@ -337,7 +417,7 @@ class C13(Check):
             with open(trace['stale']['name'], 'w') as f:
                 f.write(trace['stale']['text'])
             res['faults']['stale'] = 1
-        obs, world = C13._run_ops(ops)
+        obs, world = C13._run_ops(ops, honour_reuse=True)
         res['faults'].update(world.fired)
         res['probes'].update(world.probes)
         res['states'] = sorted(set(world.states))
@@ -359,6 +439,8 @@ class C13(Check):
             if w not in refs:
                 continue
             r = refs[w][k]
+            if o is None:
+                continue      # a rebuild the shared process skipped (reuse)
             if op['op'] in OBS_OPS and o.get('status') == 'ok':
                 reached.add(w)
             if op.get('fault') or r.get('status') == 'interrupted' or o.get('status') == 'interrupted':
